@@ -298,6 +298,8 @@ func runC16(c *explore.Ctx) {
 							c.Report(s0, explore.Violation{Key: "limit/sources-false-reject", Input: explore.J(in), Rendered: rendered, Detail: fmt.Sprintf("ParseSchemasWithLimit(%d) fails (%v) although both sources parse and have N=%d,%d tokens", limit, err, na, nb)})
 						case err == nil && uerr == nil && projSDL(d) != projSDL(ud):
 							c.Report(s0, explore.Violation{Key: "limit/sources-tree-differs", Input: explore.J(in), Rendered: rendered, Detail: "the limited parse of the sources builds a different tree"})
+						case err == nil && uerr == nil && builtinSig(d) != builtinSig(ud):
+							c.Report(s0, explore.Violation{Key: "limit/sources-builtin-flags-differ", Input: explore.J(in), Rendered: rendered, Detail: "the limited parse marks other definitions / extensions built-in than the unlimited parse", Expected: builtinSig(ud), Observed: builtinSig(d)})
 						}
 						if err == nil {
 							s0.Nontrivial++
@@ -396,4 +398,16 @@ func runC16(c *explore.Ctx) {
 	}
 	s.Extra["excluded_families"] = c16Excluded
 	s.WallS = time.Since(t0).Seconds()
+}
+
+// builtinSig lists the built-in flag of every definition, extension and directive of a schema document.
+func builtinSig(d *ast.SchemaDocument) string {
+	var b strings.Builder
+	for _, x := range d.Definitions {
+		fmt.Fprintf(&b, "def %s=%v;", x.Name, x.BuiltIn)
+	}
+	for _, x := range d.Extensions {
+		fmt.Fprintf(&b, "ext %s=%v;", x.Name, x.BuiltIn)
+	}
+	return b.String()
 }
